@@ -83,6 +83,7 @@ fn alphabet(name: &str) -> &'static [&'static str] {
         "escapes" => &["\\", "n", "\n", "\r\n", "'", "\"", "A", "é", "ő", "\u{1F600}", "\u{1F601}", "\t", "tab\\n", "TAB\\N", " "],
         "keywords" => &["type", "fn", "loop", "match", " ", "x"],
         "rawable" => &["\\", "n", "\n", "'", "''", "ab", "é", " "],
+        "charcheck" => &["a", "c", "q", "p", "s", "x", "y", "z", "-", "7", "3", "12", "b"],
         "paths" => &["n", "w", "c", "t", "u", "12", "7", "ab", "q", "Z", "K", " "],
         "calc" => &["1", "23", "+", "-", "*", "/", "(", ")", " "],
         "pos" => &["ab", "é", "=", "+", "\"", "x y", " ", "\n", "# c\n", "7", "k"],
